@@ -16,6 +16,6 @@ rm -f "$OUT"/*.json
 if [ $# -eq 0 ]; then set -- -p dnp3 -p dnp3-ffi; fi
 cd "$REPO"
 env CARGO_INCREMENTAL=0 CARGO_NET_OFFLINE=true DNP3_FACTS_DIR="$OUT" \
-    LD_LIBRARY_PATH="$SYSROOT/lib" RUSTFLAGS="-Awarnings" \
+    LD_LIBRARY_PATH="$SYSROOT/lib" RUSTFLAGS="--cap-lints=allow" \
     RUSTC_WORKSPACE_WRAPPER="$DRV" CARGO_TARGET_DIR="$TGT" \
     cargo +nightly check --offline "$@" >&2
